@@ -34,4 +34,5 @@ def run(ctx, rep):
     textparse.rule_nan_position_means_end(ctx, rep, "C16-R10")
     textparse.rule_raw_number_subscripts(ctx, rep, "C16-R11", booleans=True)
     optargs.rule_argument_checked_first(ctx, rep, "C16-R12", ("_make_string_method",))
+    optargs.rule_regexp_argument_refused(ctx, rep, "C16-R13")
     rep.undecided += ["the method result tables over the argument grid (values, not shape): a runtime differential, outside static analysis"]
